@@ -455,7 +455,7 @@ def r_clone_collections(ck: Checker) -> None:
 
     en = ck.repo.func(LNODE, f"{CLS}.get_child_nodes_with_field")
     du = ck.repo.func(LNODE, f"{CLS}.duplicate")
-    e_, d_ = coll_classes(en.raw or en.node), coll_classes(du.raw or du.node)
+    e_, d_ = coll_classes(en.node), coll_classes(du.node)
     what = "duplicate copies every kind of child collection that the child enumeration walks into (the clone shares no child container with the original)"
     if e_ is None or d_ is None:
         raise Unsupported(f"collection tests of get_child_nodes_with_field / duplicate not found ({e_}, {d_})", du.node)
